@@ -364,6 +364,10 @@ def ddp_program(h):
                 return None
             L.append("Speichere %s in r%d." % (t, op[1]))
         elif k == "C":
+            if op[1] == op[2]:
+                # `Speichere t in t.` frees t before copying it (compiler.go VisitAssignStmt): a double free that
+                # belongs to the ownership properties (C05/C08), not to the text runtime; reported, not generated
+                return None
             L.append("Speichere r%d in r%d." % (op[2], op[1]))
         elif k == "K":
             L.append("Speichere r%d verkettet mit r%d in r%d." % (op[2], op[3], op[1]))
@@ -547,7 +551,7 @@ def main():
                 if cand and violates(cand):
                     cur, changed = cand, True
                     break
-        budget = 60
+        budget = 30
         changed = True
         while changed and budget > 0:
             changed = False
@@ -569,10 +573,11 @@ def main():
                     break
         return cur
 
-    shrunk_budget = [12]
+    shrunk_budget = [4]
 
-    def report(h, impl, verdict, leg):
-        """the implementation contradicts the specification on history h"""
+    def report(h, impl, verdict, leg, healed_ok=None):
+        """the implementation contradicts the specification on history h.  healed_ok: verdict of the batch
+        run of heal(h) (True = the healed history meets the specification)"""
         n, what = verdict
         stats["contradictions"] = stats.get("contradictions", 0) + 1
         if len(ck.violations) >= 6:
@@ -581,7 +586,9 @@ def main():
             # attribution: the same history with the register re-sliced (freshly allocated) after every
             # replacement by a shorter character
             hh = heal(h)
-            if judge(hh, impl_one(hh)) is None:
+            if healed_ok is None:
+                healed_ok = judge(hh, impl_one(hh)) is None
+            if healed_ok:
                 stats["known_defect_histories"] += 1
                 if shrunk_budget[0] <= 0:
                     ck.violation("history: (not minimised) replace-shorter; passes when the register is re-sliced after the replacement",
@@ -615,6 +622,7 @@ def main():
     def process(hists, leg):
         impl = run_histories(IMPL, hists, fork_cmd=IMPL_FORK)
         mod = run_histories(MODEL, hists)
+        failing = []
         for h, i, m in zip(hists, impl, mod):
             ck.count(len(i))
             stats["operations"] += len(h)
@@ -623,11 +631,17 @@ def main():
             if len(h) >= 3 and any(op[0] in "KSPXR" for op in h) and any(len(enc(op[2])) > len(op[2]) for op in h if op[0] == "L"):
                 ck.nontrivial(repr(h))
             v = judge(h, i)
-            agree = compare_with_model(h, i, m, leg)
+            compare_with_model(h, i, m, leg)   # disagreements are recorded in model_mismatch
             if v is not None:
-                report(h, i, v, leg)
-            elif not agree:
-                pass      # recorded in model_mismatch: implementation meets the spec, model does not follow it
+                failing.append((h, i, v))
+        # one batch run decides for every failing history with a shrinking replacement whether the
+        # known defect explains it
+        need = [k for k, (h, i, v) in enumerate(failing) if shrinking_replaces(h)]
+        healed = [heal(failing[k][0]) for k in need]
+        hout = run_histories(IMPL, healed, fork_cmd=IMPL_FORK) if healed else []
+        verdicts = {k: judge(hh, o) is None for k, hh, o in zip(need, healed, hout)}
+        for k, (h, i, v) in enumerate(failing):
+            report(h, i, v, leg, verdicts.get(k))
         return impl, mod
 
     def parse_hist_file(path):
@@ -684,7 +698,8 @@ def main():
                         nul_seen = True
                         ck.violation("scalar U+0000 char_to_string/string_to_char", "U+0000 als Text: expected a text of one code point, got %r" % a,
                                      dict(input="U 0 0", implementation=a, specification=want))
-                    else:
+                    elif stats.setdefault("scalar_contradictions", 0) < 5:
+                        stats["scalar_contradictions"] += 1
                         ck.violation("scalar U+%04X per-character operations" % c, "expected %r, implementation %r" % (want, a),
                                      dict(input="U %d %d" % (c, c), implementation=a, specification=want, how="echo 'U c c' | rtdrive"))
                 if c != 0:
@@ -727,7 +742,8 @@ def main():
                 first = txt[0]
                 want = (len(first.encode("utf-8")), ord(first), len(txt), len(first.encode("utf-8")))
                 got = (int(f[2]), int(f[3]) if f[3] != "-" else None, int(f[4]), int(f[5]))
-                if got != want:
+                if got != want and stats.setdefault("decoder_contradictions", 0) < 5:
+                    stats["decoder_contradictions"] += 1
                     ck.violation("decode valid sequence %s" % bs.hex(), "expected (width, code point, length, indicated) %s, implementation %s" % (want, got),
                                  dict(input="V " + bs.hex(), implementation=a, specification=want))
             if a != m and len(model_mismatch) < 5:
@@ -847,6 +863,8 @@ def main():
                 res.append((opt, "build", r["out"][-300:], None))
                 continue
             rc, out = run_limited(exe)
+            if rc == 124:
+                rc, out = run_limited(exe, timeout=60)   # an overloaded machine, not the program
             res.append((opt, "ran", rc, out))
         return res
     for (n, h), res in zip(enumerate(progs), vlib.pmap(prog, list(enumerate(progs)))):
